@@ -63,6 +63,7 @@ public:
 
     void update();
     void buildIdList();
+    void refreshIdList();
 
     size_t idCount();
 
@@ -466,6 +467,16 @@ void Annotator::AnnotatorImpl::buildIdList()
     mIdList = listIdsAndItems(mModel.lock());
 }
 
+void Annotator::AnnotatorImpl::refreshIdList()
+{
+    // The model may have been edited since the identifier list was last built, so
+    // rebuild it unconditionally before any new identifier is handed out.  The caller
+    // is about to change identifiers: leave the list marked as out of date so that
+    // the next lookup rebuilds it from the model.
+    buildIdList();
+    mHash = 0;
+}
+
 size_t Annotator::AnnotatorImpl::idCount()
 {
     return mIdList.size();
@@ -790,6 +801,7 @@ bool Annotator::assignAllIds()
 {
     auto model = pFunc()->mModel.lock();
     if (model != nullptr) {
+        pFunc()->refreshIdList();
         size_t initialSize = pFunc()->idCount();
         pFunc()->doSetAllAutomaticIds();
         return pFunc()->idCount() > initialSize;
@@ -818,6 +830,7 @@ bool Annotator::assignIds(CellmlElementType type)
         return false;
     }
 
+    pFunc()->refreshIdList();
     size_t initialSize = pFunc()->idCount();
 
     switch (type) {
@@ -1313,7 +1326,8 @@ std::string Annotator::AnnotatorImpl::setAutoId(const AnyCellmlElementPtr &item)
                 return newId;
             }
 
-            update();
+            removeAllIssues();
+            refreshIdList();
             newId = makeUniqueId();
 
             if (!oldId.empty()) {
